@@ -47,9 +47,12 @@ rank = z3.Function("h5_rank", PRED, z3.IntSort(), z3.IntSort())  # rank(P, j) = 
 
 
 def rank_def():
-    P, j = z3.Const("P!rk", PRED), z3.Int("j!rk")
+    P, j, b = z3.Const("P!rk", PRED), z3.Int("j!rk"), z3.Int("b!rk")
+    # (the step is triggered by the PAIR of terms rank(P, j), rank(P, b) with b = j + 1: no arithmetic inside the trigger, no matching loop;
+    #  a proof has to name both terms)
     return [("rank-zero", z3.ForAll([P], rank(P, 0) == 0, patterns=[rank(P, 0)])),
-            ("rank-step", z3.ForAll([P, j], z3.Implies(j >= 0, rank(P, j + 1) == rank(P, j) + z3.If(P[j], 1, 0)), patterns=[rank(P, j + 1)]))]
+            ("rank-step", z3.ForAll([P, j, b], z3.Implies(z3.And(j >= 0, b == j + 1), rank(P, b) == rank(P, j) + z3.If(P[j], 1, 0)),
+                                    patterns=[z3.MultiPattern(rank(P, j), rank(P, b))]))]
 
 
 def rank_monotone(P=None, top=None):
@@ -451,19 +454,19 @@ def _out_facts(c, F0, F1, upto, values=None):
     rng = z3.And(nn0 <= j, j < nn0 + upto)
     out = [
         ("arrays-written", z3.ForAll([j], z3.Implies(z3.And(rng, z3.Not(SC[j])), z3.And(F1.has_agrp(i), F1.amem(i)[sidx(j)], F1.avals(i)[sidx(j)] == outs.vals[L(j)])),
-                                     patterns=[F1.amem(i)[sidx(j)]])),
+                                     patterns=[sidx(j)])),
         ("sub-group-members", z3.ForAll([s], z3.Implies(z3.And(F1.has_agrp(i), F1.amem(i)[s]),
                                                         z3.Or(was(s), z3.And(s == sidx(H.int_of_str(s)), nn0 <= H.int_of_str(s), H.int_of_str(s) < nn0 + upto, z3.Not(SC[H.int_of_str(s)])))),
                                         patterns=[F1.amem(i)[s]])),
         ("sub-group-old-datasets-kept", z3.ForAll([s], z3.Implies(was(s), z3.And(F1.has_agrp(i), F1.amem(i)[s], F1.avals(i)[s] == F0.avals(i)[s])), patterns=[F0.amem(i)[s]])),
         ("other-sub-groups-unchanged", z3.ForAll([s], z3.Implies(s != aname(i), z3.And(F1.VAm[s] == F0.VAm[s], F1.VAv[s] == F0.VAv[s])))),
-        ("sub-group-iff", F1.has_agrp(i) == z3.Or(F0.has_agrp(i), z3.Exists([j], z3.And(rng, z3.Not(SC[j]))))),
     ]
     if values is not None:
         base = rank(SC, nn0)
         out += [
             ("scalars-buffered:count", values.n == rank(SC, nn0 + upto) - base),
-            ("scalars-buffered:values", z3.ForAll([j], z3.Implies(z3.And(rng, SC[j]), values.elems[rank(SC, j) - base] == outs.vals[L(j)]), patterns=[rank(SC, j)])),
+            ("scalars-buffered:values", z3.ForAll([j], z3.Implies(z3.And(rng, SC[j]), z3.And(rank(SC, j + 1) == rank(SC, j) + 1,  # (names rank(SC, j + 1): instantiates the step and monotonicity)
+                                                                                                    values.elems[rank(SC, j) - base] == outs.vals[L(j)])), patterns=[rank(SC, j)])),
             ("scalar-datasets-untouched", z3.And(F1.VDm == F0.VDm, F1.VDv == F0.VDv)),
         ]
     return out
@@ -500,6 +503,7 @@ class _AddHdfOutputDataset(_Hdf):
         nn0 = old_nn(K0, sidx(i))
         j, s, nm = z3.Int("j!rq"), z3.Const("s!rq", StrS), z3.Const("nm!rq", StrS)
         pre = [
+            ("type:listing-length", seq_n(NAMES, K0.get(sidx(i))) >= 0),
             # call sites: __create_hdf_input_output (new point: nothing listed) / __append_hdf_output (the missing names only)
             ("names-not-listed-yet", z3.ForAll([j], z3.Implies(z3.And(0 <= j, j < nn0), z3.Not(outs.has(F0.name(i, j)))), patterns=[F0.name(i, j)])),
             ("listed-names-distinct(POS)", z3.ForAll([j], z3.Implies(z3.And(0 <= j, j < nn0), F0.pos(i, F0.name(i, j)) == j), patterns=[F0.name(i, j)])),
@@ -540,7 +544,8 @@ class _AddHdfOutputDataset(_Hdf):
             ("scalars:dataset", z3.Implies(cnt != 0, z3.And(F1.has_scal(i), F1.scal_n(i) == off + cnt))),
             ("scalars:old-kept", z3.Implies(cnt != 0, z3.ForAll([r], z3.Implies(z3.And(0 <= r, r < off), F1.scal(i, r) == F0.scal(i, r))))),
             ("scalars:appended-in-order", z3.Implies(cnt != 0, z3.ForAll([p], z3.Implies(z3.And(nn0 <= p, p < nn0 + m, SC[p]),
-                                                                                         F1.scal(i, off + rank(SC, p) - base) == outs.vals[H.sorted_el(mem, p - nn0)]), patterns=[rank(SC, p)]))),
+                                                                                         z3.And(rank(SC, p + 1) == rank(SC, p) + 1,
+                                                                                                F1.scal(i, off + rank(SC, p) - base) == outs.vals[H.sorted_el(mem, p - nn0)])), patterns=[rank(SC, p)]))),
             ("scalars:other-datasets", z3.ForAll([s], z3.Implies(s != me, z3.And(V1d.has(s) == V0d.has(s), V1d.get(s) == V0d.get(s))))),
         ]
         # ghosts
